@@ -57,8 +57,10 @@ Next == /\ i < Len(T[tr].ev) /\ i' = i + 1 /\ UNCHANGED tr
                         <<k = 0 \/ base < 0 \/ e.c + 1 >= lb \/ preRestart, "schedule-active-before-its-start-delay">>,
                         \* a schedule's ticker is created when the schedule starts: its first tick is one period later
                         <<k = 0 \/ base < 0 \/ preRestart \/ e.c + 1 < lb \/ e.c + 1 >= lb + e.a, "function-invoked-before-the-first-tick-of-its-schedule">>,
-                        \* at most once per tick of the active schedule
-                        <<k = 0 \/ base < 0 \/ e.c + 1 < lb \/ cnt[kk] + 1 <= 1 + ((e.c + 1 - lb) \div e.a), "more-invocations-than-ticks">> >>)
+                        \* at most once per tick of the active schedule. After a Restart the counting window starts at an
+                        \* arbitrary phase of the OLD ticker: one tick that fired before the window (delivered late, or
+                        \* buffered while the function was executing) may be consumed inside it - hence 2 + ... there.
+                        <<k = 0 \/ base < 0 \/ e.c + 1 < lb \/ cnt[kk] + 1 <= (IF rbase >= 0 THEN 2 ELSE 1) + ((e.c + 1 - lb) \div e.a), "more-invocations-than-ticks">> >>)
                   /\ inFn' = TRUE
                   /\ cnt' = IF k > 0 /\ e.c + 1 >= lb THEN [cnt EXCEPT ![k] = @ + 1] ELSE cnt
                   /\ UNCHANGED <<newT, startT, base, rbase, stopRet, stopCalled, cancelled, exited>>
